@@ -33,6 +33,9 @@ def hostile_env(jobs, last=4):
     for k, j in enumerate(jobs[-last:]):
         j.argv += ["--hostile-env", str(1 + k % 4)]
         j.env = dict(j.env or {}, **HOSTILE_ENV)
+        # ... and with a standard error that cannot be written to (/dev/full): a library that starts to print there must
+        # not take the caller down with it
+        j.stderr_full = True
     return jobs
 
 
@@ -54,12 +57,12 @@ PLAN = {}
 # what later rounds of seeded changes added to each check (appended to the rule text of the evidence / manifest)
 ADDED = {
     "C01": "; the standalone constructors are also given the same full name cut at another place; the last four shards run in a hostile process environment (getenv interposer answers every variable asked for, usual DogStatsD variables set)",
-    "C03": "; refusal payload shapes (message, typed payload, a cadence error as payload, raw OS error, nested io::Error); one step in six first makes the same builder and drops it unsent (no emit, no handler call)",
+    "C03": "; the last four shards run in a hostile process state (getenv interposer, standard error unwritable: /dev/full); refusal payload shapes (message, typed payload, a cadence error as payload, raw OS error, nested io::Error); one step in six first makes the same builder and drops it unsent (no emit, no handler call)",
     "C04": "; the last four shards run in a hostile process environment (getenv interposer answers every variable asked for, usual DogStatsD variables set): a client adds nothing of its own",
     "C06": "; W5 flushes also with 1-3 metrics still queued behind the one the queue's thread holds; miri_time (hour-long pauses on Miri's virtual clock) and seven histories with real pauses of 1.3 / 2.6 s",
     "C08": "; composed queuing sinks (a queue feeding a queue, a handler reporting through a queue); miri_time: a wrapped sink that stalls for a virtual hour with metrics accepted behind it - age is no reason to skip a metric",
     "C09": "; miri_time: a backlog behind a sink that needs ten virtual minutes per metric is handed over completely after the last drop, drop itself takes no virtual time, release within a virtual day; miri_queue: last drop at the moment of the last delivery (weak-memory emulation)",
-    "C10": "; unbounded queues with backlogs of 70 000 and 2^20 + 60 000 behind the blocked sink accept everything; emit called on another queuing sink's thread (queue -> queue, handler -> queue) is answered like any caller's; a wrapped sink and handler using 100 KiB of stack; a driver killed by a signal counts",
+    "C10": "; miri_time: emit keeps answering by queue room alone while the wrapped sink is inside one call for a virtual hour; unbounded queues with backlogs of 70 000 and 2^20 + 60 000 behind the blocked sink accept everything; emit called on another queuing sink's thread (queue -> queue, handler -> queue) is answered like any caller's; a wrapped sink and handler using 100 KiB of stack; a driver killed by a signal counts",
     "C11": "; a refusal with room in the queue after a panic of the wrapped sink counts here too ('keeps accepting')",
     "C12": "; every other run ends with the drop alone (no final flush)",
     "C13": "; socket file names with special first bytes (@ - ~ # % : blank) as bare relative paths, buffered Unix sinks addressed relatively; address lists whose first entry is of the other family than the socket (first address is the destination, the second stays silent)",
@@ -155,8 +158,8 @@ meta("C03", level="fault_enumeration",
 @plan("C03")
 def _c03(bindir, tier, seed):
     if tier == QUICK:
-        return shards(bindir, "fmt_driver", "C03", seed, NCPU, ["--mode", "c03", "--maxlen", "7", "--cases", "3000"], 600)
-    return shards(bindir, "fmt_driver", "C03", seed, NCPU, ["--mode", "c03", "--maxlen", "10", "--cases", "20000"], 7200) + [fuzz_job("C03", "fz_fmt", "fmt_driver", seed, 120, 8)]
+        return hostile_env(shards(bindir, "fmt_driver", "C03", seed, NCPU, ["--mode", "c03", "--maxlen", "7", "--cases", "3000"], 600))
+    return hostile_env(shards(bindir, "fmt_driver", "C03", seed, NCPU, ["--mode", "c03", "--maxlen", "10", "--cases", "20000"], 7200)) + [fuzz_job("C03", "fz_fmt", "fmt_driver", seed, 120, 8)]
 
 
 # ---- C04 ----------------------------------------------------------------------------------------------
@@ -314,7 +317,7 @@ def q_jobs(bindir, prop, tier, seed, seq_enum=True, caps="unbounded,1,2,3", drop
     if blocked:
         jobs += shards(bindir, "queue_conc", prop + "-blocked", seed, NCPU, base + ["--mode", "blocked", "--cases", "60" if quick else "4000"] + ([] if quick else ["--big"]), 3400,
                        per_shard_args=lambda i: ["--huge-first"] if i == 0 or (not quick and i < 4) else [])
-    if prop in ("C09", "C08"):
+    if prop in ("C09", "C08", "C10"):
         # a backlog behind a sink that takes ten (virtual) minutes per metric, hour-long idle periods: Miri's virtual clock
         jobs.append(miri_time_job(prop, seed, 4 if quick else 64, 1500 if quick else 7200))
     # Miri: compact histories under a random preemptive scheduler, hooks off; virtual-time quiescence
@@ -561,7 +564,12 @@ def _c17(bindir, tier, seed):
             argv += ["--late-set"]
         if i % 4 != 3 and i % 6 != 5:
             argv += ["--reentrant-handler"]
-        jobs.append(Job("C17-macro-%d" % i, argv, 600))
+        j = Job("C17-macro-%d" % i, argv, 600)
+        if i % 5 == 4:
+            # hostile process state: the usual DogStatsD variables set, standard error unwritable
+            j.env = dict(HOSTILE_ENV)
+            j.stderr_full = True
+        jobs.append(j)
     # second observer: the macros on a set global client under Miri (spurious CAS failures, weak memory, races, UB)
     if tier == QUICK:
         jobs.append(miri_job("C17-miri-macros", "C17", "macro_miri", ["2", "2"], 16, seed, 1500))
@@ -658,7 +666,11 @@ def _c20(bindir, tier, seed):
     q = tier == QUICK
     jobs = []
     for area, n, cases_q, cases_t in (("format", 8, 30, 1500), ("writer", 3, 20000, 400000), ("sinks", 2, 1500, 40000), ("queue", 2, 1500, 30000), ("misc", 1, 200, 2000), ("tls", 1, 64, 2000)):
-        jobs += shards(bindir, "hostile_driver", "C20-" + area, seed, n, ["--area", area, "--cases", str(cases_q if q else cases_t)], 3400)
+        js = shards(bindir, "hostile_driver", "C20-" + area, seed, n, ["--area", area, "--cases", str(cases_q if q else cases_t)], 3400)
+        # the last shard of each area runs with an unwritable standard error and the usual DogStatsD variables set
+        js[-1].env = dict(HOSTILE_ENV)
+        js[-1].stderr_full = True
+        jobs += js
     # memory-safety observer: a compact tour of the whole public API under Miri (UB, data races, leaks of the paths reached)
     jobs.append(miri_job("C20-miri-api", "C20", "miri_api", [], 2 if q else 32, seed, 1500 if q else 7200, fail_marker="API-ORACLE-FAILED"))
     if not q:
